@@ -18,6 +18,7 @@ type Ev struct {
 	O   int      `json:"o,omitempty"`   // owner index of the event
 	V   int      `json:"v,omitempty"`   // validator index
 	Op  uint64   `json:"op,omitempty"`  // operator id (opadd, oprem)
+	PK  int      `json:"pk,omitempty"`  // opadd: whose public key is announced: 0 = the id's own (ours if Op == Us), -1 = OUR key, n > 0 = operator n's key
 	Ops []uint64 `json:"ops,omitempty"` // committee / cluster operator ids as emitted
 
 	// vadd: what the owner signed, and how the payload is damaged
@@ -38,6 +39,36 @@ type Scenario struct {
 	NOps   int  `json:"nops"` // operator ids 1..NOps may be registered
 	Us     int  `json:"us"`   // the operator id announced with our RSA key; 0 = we are not registered
 	Events []Ev `json:"events"`
+}
+
+// OpKey is the public key an OperatorAdded event of the program announces.
+func OpKey(us int, e Ev) []byte {
+	switch {
+	case e.PK == -1:
+		return ThePool().OwnPub
+	case e.PK > 0:
+		return ForeignPub(uint64(e.PK))
+	case us != 0 && e.Op == uint64(us):
+		return ThePool().OwnPub
+	}
+	return ForeignPub(e.Op)
+}
+
+// SelfID is the operator id under which the event log registers OUR key: the first accepted
+// OperatorAdded carrying it (0: none). The log builders encrypt our share for that committee member.
+func (sc Scenario) SelfID() uint64 {
+	own := string(ThePool().OwnPub)
+	seen := map[uint64]bool{}
+	for _, e := range sc.Events {
+		if e.K != "opadd" || seen[e.Op] {
+			continue
+		}
+		seen[e.Op] = true
+		if string(OpKey(sc.Us, e)) == own {
+			return e.Op
+		}
+	}
+	return 0
 }
 
 // ---- reference model (written from the property statement) ---------------------------------
@@ -192,21 +223,26 @@ func (p *Pool) FeeAddr(o, fee int) ethcommon.Address {
 func (m *Model) Apply(us int, e Ev, block uint64) Outcome {
 	switch e.K {
 	case "opadd":
-		pub := ForeignPub(e.Op)
-		if us != 0 && e.Op == uint64(us) {
-			pub = m.p.OwnPub
-		}
+		pub := OpKey(us, e)
 		if m.Operators[e.Op] != nil {
 			return Outcome{Class: "opadd:exists"}
 		}
 		mine := string(pub) == string(m.p.OwnPub)
 		if mine && m.Self != 0 && m.Self != e.Op {
-			return Outcome{Class: "opadd:mal-same-key"}
+			// our own key announced under a second id: refused, nothing changes (in particular the id
+			// stays unknown to later committee validation and to the restart's own-id lookup)
+			return Outcome{Class: "opadd:refused-own-key-other-id"}
 		}
 		m.Operators[e.Op] = &MOperator{ID: e.Op, Pub: string(pub), Owner: m.p.Owners[e.O]}
 		if mine {
 			m.Self = e.Op
+			if e.PK == -1 && (us == 0 || e.Op != uint64(us)) {
+				return Outcome{Class: "opadd:us-under-unexpected-id"}
+			}
 			return Outcome{Class: "opadd:us"}
+		}
+		if e.PK > 0 && uint64(e.PK) != e.Op {
+			return Outcome{Class: "opadd:other-reused-key"}
 		}
 		return Outcome{Class: "opadd:other"}
 
@@ -330,6 +366,21 @@ func (m *Model) Apply(us int, e Ev, block uint64) Outcome {
 	panic("bad event kind " + e.K)
 }
 
+// pkOf returns the PK field that reproduces operator id's registered key.
+func (m *Model) pkOf(id uint64) int {
+	if o := m.Operators[id]; o != nil && o.Pub == string(m.p.OwnPub) {
+		return -1
+	}
+	if o := m.Operators[id]; o != nil {
+		for k := uint64(1); k <= MaxOperators+2; k++ {
+			if o.Pub == string(ForeignPub(k)) {
+				return int(k)
+			}
+		}
+	}
+	return int(id)
+}
+
 func (m *Model) sortedVals() []int {
 	var vs []int
 	for v := range m.Shares {
@@ -378,6 +429,7 @@ type Snapshot struct {
 	Recipients []RecipientSnap `json:"recipients"`
 	HasLast    bool            `json:"has_last"`
 	Last       uint64          `json:"last"`
+	Self       uint64          `json:"self_operator_id"` // live: operator data store; fresh: what a restart resolves by public key
 }
 
 func short(b []byte) string {
@@ -389,7 +441,7 @@ func short(b []byte) string {
 
 // Snapshot renders the model state.
 func (m *Model) Snapshot() Snapshot {
-	s := Snapshot{HasLast: m.HasLast, Last: m.Last}
+	s := Snapshot{HasLast: m.HasLast, Last: m.Last, Self: m.Self}
 	for _, v := range m.sortedVals() {
 		sh := m.Shares[v]
 		n := len(sh.Ops)
@@ -433,6 +485,9 @@ func (m *Model) Snapshot() Snapshot {
 func Diff(want, got Snapshot) (cat, msg string) {
 	if want.HasLast != got.HasLast || want.Last != got.Last {
 		return "last-block", fmt.Sprintf("last processed block: want (%v,%d) got (%v,%d)", want.HasLast, want.Last, got.HasLast, got.Last)
+	}
+	if want.Self != got.Self {
+		return "self-id", fmt.Sprintf("the node's own operator id: want %d got %d", want.Self, got.Self)
 	}
 	wm, gm := map[string]ShareSnap{}, map[string]ShareSnap{}
 	for _, s := range want.Shares {
